@@ -13,7 +13,8 @@ def explicit_casts(x, out, db=None, depth=0):
     """explicit casts written in a body - including the bodies of rlbox::detail helpers it calls (the conversion may have been
     moved into a shared helper; in an instantiation only the selected `if constexpr` arm is left)"""
     if isinstance(x, dict):
-        if x.get("k") == "cast" and x.get("sk") in ("CXXReinterpretCastExpr", "CXXConstCastExpr", "CXXStaticCastExpr", "CStyleCastExpr", "CXXFunctionalCastExpr", "CXXDynamicCastExpr"):
+        if x.get("k") == "cast" and x.get("sk") in ("CXXReinterpretCastExpr", "CXXConstCastExpr", "CXXStaticCastExpr", "CStyleCastExpr", "CXXFunctionalCastExpr", "CXXDynamicCastExpr") and \
+                (x.get("t") or {}).get("k") != "rec":   # `Tag{}` / `Class(x)` constructs an object, it is not a conversion of the value
             out.append(x)
         if db is not None and depth < 2 and x.get("k") == "call" and ((x.get("fn") or {}).get("n") or "").startswith("rlbox::detail::"):
             g = db.fn_by_id.get((x.get("fn") or {}).get("id"))
